@@ -27,7 +27,7 @@ func init() {
 	register(&Property{
 		ID:    "C01",
 		Level: "other",
-		Explain: "Program equivalence is not decidable statically; the check decides seven structural necessary conditions of it on the JS minifier's source: " +
+		Explain: "Program equivalence is not decidable statically; the check decides structural necessary conditions of it on the JS minifier's source (R01.1-R01.12; R01.8-R01.12 were added after independently seeded changes were missed or defects were reported, see DESIGN.md §9): " +
 			"(R01.1) every printer/collector type switch over the parser's IStmt/IExpr/IBinding interfaces has a case for every implementing node type, and endsInIf covers every statement kind that ends in a nested statement; " +
 			"(R01.2) the five operator precedence tables agree with the grammar levels extracted from the parser's own source and with ECMA-262; " +
 			"(R01.3) every save of a printer context flag (inFor, groupedStmt, renamer.rename) is restored on all paths; " +
@@ -35,6 +35,7 @@ func init() {
 			"(R01.5) a variable is only treated as the global undefined/NaN/Infinity/Math/Number/isNaN when its Decl is NoDecl; " +
 			"(R01.6) length tests on string literal data are consistent with the lexer invariant that the data includes both quotes; " +
 			"(R01.7) the regular-expression escape tables keep the backslash of every escape that is significant in the ES2022 Pattern grammar. " +
+			"(R01.8) every AST slot is printed at least at its grammar level; (R01.9) BigInt literals keep their suffix and bypass minify.Number; (R01.10) string merging only reads operands of additions; (R01.11) function bodies are printed with inFor isolated; (R01.12) parameters with effectful defaults are not dropped. " +
 			"Not covered: the meaning preservation of each algebraic rewrite, ASI, literal rewriting.",
 		Run: runC01,
 	})
